@@ -574,6 +574,8 @@ def container_children_all_handled(prog: Program, res: Results, rid: str) -> Non
                         cur = pmf[cur]
                         if isinstance(cur, ast.If):
                             srcs.append(cur.test)
+                        elif isinstance(cur, ast.match_case):
+                            srcs.append(cur.pattern)  # `case "inherited_attrs": container = child`
                     for s_ in srcs:
                         for x in ast.walk(s_):
                             if isinstance(x, ast.Constant) and x.value in NAMED_ONLY_CONTAINERS:
